@@ -89,7 +89,7 @@ func ruleWR5(c *Ctx) {
 	var sites []site
 	for _, fn := range c.Fns {
 		for _, call := range callsIn(fn) {
-			cal := call.Common().StaticCallee()
+			cal := calleeOf(call.Common())
 			name := ""
 			if cal != nil && c.InModule(cal) {
 				if !storage[cal] {
@@ -358,7 +358,7 @@ func (c *Ctx) errorPropagates(f *ssa.Function, cv *ssa.Call, ev ssa.Value) (bool
 // sentinelConversion: the return is guarded by err.Error() == C where C is the text of an errors.New(C) inside a
 // lock callback of f, the call is the lock primitive, and the sentinel return in the callback happens before any commit.
 func (c *Ctx) sentinelConversion(f *ssa.Function, cv *ssa.Call, ev ssa.Value, r *ssa.Return) bool {
-	if cv.Call.StaticCallee() != c.F.LockPrim {
+	if !c.F.isLockFn(calleeOf(&cv.Call)) {
 		return false
 	}
 	var cb *ssa.Function
@@ -404,7 +404,7 @@ func (c *Ctx) sentinelConversion(f *ssa.Function, cv *ssa.Call, ev ssa.Value, r 
 				}
 				returned = true
 				for _, cc := range callsIn(uf) {
-					if cal := cc.Common().StaticCallee(); cal != nil && commitSet[cal] && canReachInstr(cc, ret) {
+					if cal := calleeOf(cc.Common()); cal != nil && commitSet[cal] && canReachInstr(cc, ret) {
 						afterCommit = true
 					}
 				}
@@ -435,7 +435,7 @@ func (c *Ctx) sentinelConversion(f *ssa.Function, cv *ssa.Call, ev ssa.Value, r 
 				commit := c.commitFuncs()
 				after := false
 				for _, cc := range callsIn(cb) {
-					if cal := cc.Common().StaticCallee(); cal != nil && commit[cal] && canReachInstr(cc, call) {
+					if cal := calleeOf(cc.Common()); cal != nil && commit[cal] && canReachInstr(cc, call) {
 						after = true
 					}
 				}
@@ -543,7 +543,7 @@ func ruleOU3(c *Ctx) {
 			// State / ClaimedBy: constant of the payload, or read off replayEvents(events) of the events being appended
 			var committed ssa.Value
 			for _, call := range callsIn(cb) {
-				if cal := call.Common().StaticCallee(); cal != nil && commit[cal] && len(call.Common().Args) >= 2 {
+				if cal := calleeOf(call.Common()); cal != nil && commit[cal] && len(call.Common().Args) >= 2 {
 					committed = call.Common().Args[1]
 				}
 			}
@@ -657,7 +657,7 @@ func ruleOU3(c *Ctx) {
 						}
 					}
 				case *ssa.Call:
-					h := x.Call.StaticCallee()
+					h := calleeOf(&x.Call)
 					if h == nil || h.Blocks == nil || !c.InModule(h) {
 						return
 					}
@@ -714,7 +714,7 @@ func ruleOU3(c *Ctx) {
 			var committed ssa.Value
 			var commitCall ssa.CallInstruction
 			for _, call := range callsIn(cb) {
-				if cal := call.Common().StaticCallee(); cal != nil && commit[cal] && len(call.Common().Args) >= 2 {
+				if cal := calleeOf(call.Common()); cal != nil && commit[cal] && len(call.Common().Args) >= 2 {
 					committed, commitCall = call.Common().Args[1], call
 				}
 			}
@@ -787,7 +787,7 @@ func ruleOU3(c *Ctx) {
 	if rs := c.ErgoFn("RunSequence"); rs != nil {
 		var wl ssa.CallInstruction
 		for _, call := range callsIn(rs) {
-			if cal := call.Common().StaticCallee(); cal != nil && c.InModule(cal) && commit[cal] {
+			if cal := calleeOf(call.Common()); cal != nil && c.InModule(cal) && commit[cal] {
 				wl = call
 			}
 		}
@@ -816,7 +816,7 @@ func ruleOU3(c *Ctx) {
 			if len(outs) == 0 && edgesArg != nil {
 				// the reply edges may be built by a helper from the same edge slice
 				for _, call := range callsIn(rs) {
-					h := call.Common().StaticCallee()
+					h := calleeOf(call.Common())
 					if h == nil || !c.InModule(h) || h.Blocks == nil || call == wl {
 						continue
 					}
@@ -887,7 +887,7 @@ func (c *Ctx) derivesFromReplayOf(v ssa.Value, re *ssa.Function, committed ssa.V
 			return
 		}
 		seen[x] = true
-		if cl, ok := x.(*ssa.Call); ok && cl.Call.StaticCallee() == re {
+		if cl, ok := x.(*ssa.Call); ok && calleeOf(&cl.Call) == re {
 			found = cl
 			return
 		}
